@@ -298,6 +298,17 @@ type fillOpt struct {
 	typeKeys   []uint64 // keys to prefer for fields named "Type" of uint kind
 	idPool     []uint64
 	depthLimit int
+	xmlChars   bool // only strings XML 1.0 can carry (no C0 controls but TAB LF CR): the SVG printer has to
+	// replace anything else (it writes U+FFFD), so "the label is the topology's text" cannot be asked there
+}
+
+func xmlCarriable(s string) bool {
+	for _, r := range s {
+		if r < 0x20 && r != '\t' && r != '\n' && r != '\r' || r == 0xFFFE || r == 0xFFFF {
+			return false
+		}
+	}
+	return true
 }
 
 // strings that are harmless as DATA but special to something that may carry them: XML comments /
@@ -306,11 +317,16 @@ type fillOpt struct {
 // an XML comment unescaped; C14-8: a replacer that cannot tell an encoder-made \u0026 from the same six
 // characters in the data)
 var nastyStr = []string{"--", "a -- b", "-->", "<!-- x -->", "]]>", "&amp;", "&#65;", "PGM\\u0026PVW", "C:\\u003e", "\\u003c", "\\", "a\\b\\", "\"q\"", "it's", "%d%s %",
-	"</svg>", "<g/>", "l1\nl2", "tab\there", "\u2028", "\U0001F4A1", "R&S", "1<2>0", strings.Repeat("long ", 60)}
+	"</svg>", "<g/>", "l1\nl2", "tab\there", "\u2028", "\U0001F4A1", "R&S", "1<2>0", strings.Repeat("long ", 60),
+	// characters that Go's %q / strconv.Quote and JSON escape DIFFERENTLY (seed C14-11: a hand-assembled
+	// envelope with "title":%q is not JSON for these), byte-order mark, zero-width and bidi controls
+	"Rack 3\x1b[1m", "bell\a", "vt\v", "nul\x00x", "del\x7f", "tag \U000E0041 char", "\ufeffbom", "zw\u200bsp", "\u202eltr", "\b\f\r", "\u00a0nbsp\u00ad"}
 
 func (o *fillOpt) pickStr(name string) string {
 	if o.rng.Intn(7) == 0 {
-		return nastyStr[o.rng.Intn(len(nastyStr))]
+		if s := nastyStr[o.rng.Intn(len(nastyStr))]; !o.xmlChars || xmlCarriable(s) {
+			return s
+		}
 	}
 	if p, ok := poolStr[name]; ok {
 		return p[o.rng.Intn(len(p))]
